@@ -450,6 +450,7 @@ type SpecFn struct {
 	Ret    string
 	Body   SpecExpr // nil => uninterpreted
 	Rec    bool
+	Opaque bool // declared as an uninterpreted function plus a defining axiom triggered on its applications
 }
 
 type Axiom struct {
@@ -536,7 +537,7 @@ func parseLabel(s string) (props []string, label string, rest string) {
 
 var clauseKeywords = map[string]bool{"func": true, "external": true, "requires": true, "ensures": true, "loop": true,
 	"modifies": true, "pure": true, "mode": true, "safety": true, "assert": true, "panics": true, "specfn": true,
-	"axiom": true, "lemma": true, "inline": true, "option": true, "unroll": true, "typeinv": true, "sweep": true}
+	"axiom": true, "lemma": true, "inline": true, "option": true, "unroll": true, "typeinv": true, "sweep": true, "uses-global": true}
 
 // loadContracts reads every zz_verif_contracts*.go under dir (non recursive) and
 // additional spec files.
@@ -650,6 +651,11 @@ func loadContractFile(cs *ContractSet, path, pkgPath string) error {
 		case "unroll":
 			n, _ := strconv.Atoi(rest)
 			cur.Unroll = n
+		case "uses-global":
+			if cur.Options["uses-global"] != "" {
+				cur.Options["uses-global"] += ","
+			}
+			cur.Options["uses-global"] += strings.TrimSpace(rest)
 		case "option":
 			kv := strings.SplitN(rest, "=", 2)
 			if len(kv) == 2 {
@@ -743,14 +749,14 @@ func loadContractFile(cs *ContractSet, path, pkgPath string) error {
 }
 
 // specfn name(a T, b T) R = body
-var specFnRe = regexp.MustCompile(`^(rec\s+)?(\w+)\s*\(([^)]*)\)\s*([\w\[\]\.\*]+)\s*(=\s*(.*))?$`)
+var specFnRe = regexp.MustCompile(`^(rec\s+|opaque\s+)?(\w+)\s*\(([^)]*)\)\s*([\w\[\]\.\*]+)\s*(=\s*(.*))?$`)
 
 func parseSpecFn(s string) (*SpecFn, error) {
 	m := specFnRe.FindStringSubmatch(s)
 	if m == nil {
 		return nil, fmt.Errorf("bad specfn %q", s)
 	}
-	sf := &SpecFn{Name: m[2], Ret: m[4], Rec: m[1] != ""}
+	sf := &SpecFn{Name: m[2], Ret: m[4], Rec: strings.HasPrefix(m[1], "rec"), Opaque: strings.HasPrefix(m[1], "opaque")}
 	if strings.TrimSpace(m[3]) != "" {
 		var pending []string
 		for _, p := range strings.Split(m[3], ",") {
